@@ -14,6 +14,7 @@ import (
 	"verif/props/c11"
 	"verif/props/c12"
 	"verif/props/c13"
+	"verif/props/c14"
 	"verif/props/c15"
 	"verif/props/c16"
 	"verif/props/c17"
@@ -36,6 +37,7 @@ func init() {
 	props["C11"] = prop{c11.Run, c11.Replay}
 	props["C12"] = prop{c12.Run, c12.Replay}
 	props["C13"] = prop{c13.Run, c13.Replay}
+	props["C14"] = prop{c14.Run, c14.Replay}
 	props["C15"] = prop{c15.Run, c15.Replay}
 	props["C16"] = prop{c16.Run, c16.Replay}
 	props["C17"] = prop{c17.Run, c17.Replay}
